@@ -82,7 +82,7 @@ impl RefInd for Fisher {
 			let lib = if cfg!(feature = "value_type_f32") { 4.0 * U / (1.0 - xv.abs()) } else { 0.0 };
 			T::new(xv.atanh(), (x.e + s.e / (h - l).abs().max(f64::MIN_POSITIVE)) * 501.0 + 8.0 * U * xv.atanh().abs() + 4.0 * U + lib)
 		};
-		let cum = T::new(self.prev.v * 0.5 + ft.v, self.prev.e * 0.5 + ft.e + 2.0 * U * (self.prev.v.abs() + ft.v.abs()) + crate::tracked::ETA);
+		let cum = T::new(self.prev.v * 0.5 + ft.v, self.prev.e * 0.5 + ft.e + 2.0 * U * (self.prev.v.abs() + ft.v.abs()) + if self.prev.v == 0.0 { 0.0 } else { crate::tracked::ETA });
 		let rev = cross_i8(&mut self.cross, cum, self.prev);
 		let zero = z();
 		let cond1 = match rev {
